@@ -2,7 +2,6 @@ package rules
 
 import (
 	"go/ast"
-	"go/token"
 	"go/types"
 	"strings"
 
@@ -237,17 +236,12 @@ func runC04(r *fw.Run) {
 			opts = sig.Params().At(sig.Params().Len() - 1)
 		}
 		isNoOpts := func(e ast.Expr) bool {
-			be, ok := ast.Unparen(e).(*ast.BinaryExpr)
-			if !ok || be.Op != token.EQL {
+			a := fw.Atom(ginfo, e, true) // any spelling of len(options) == 0
+			if a.Kind != "Empty" {
 				return false
 			}
-			c, ok := ast.Unparen(be.X).(*ast.CallExpr)
-			if !ok || fw.Builtin(ginfo, c) != "len" || len(c.Args) != 1 {
-				return false
-			}
-			id, ok := ast.Unparen(c.Args[0]).(*ast.Ident)
-			cv, isC := fw.ConstVal(ginfo, be.Y)
-			return ok && opts != nil && ginfo.Uses[id] == opts && isC && cv == "0"
+			id, ok := ast.Unparen(a.X).(*ast.Ident)
+			return ok && opts != nil && ginfo.Uses[id] == opts
 		}
 		flags := map[types.Object]bool{}
 		fw.WalkAll(fi.Decl.Body, func(n ast.Node) bool {
@@ -363,15 +357,27 @@ func engineAdmission(r *fw.Run, rule string, withVariables bool) {
 				}
 			}
 			// no JSON-object variables to validate
-			if b, ok := ast.Unparen(e).(*ast.BinaryExpr); ok && b.Op.String() == "&&" && !branch {
-				// every conjunct must be about the shape of the variables themselves: an extra, unrelated
-				// condition would let JSON-object variables through unvalidated
+			if b, ok := ast.Unparen(e).(*ast.BinaryExpr); ok && (b.Op.String() == "&&" && !branch || b.Op.String() == "||" && branch) {
+				// (a && b is false, or its De Morgan form !a || !b is true.) Every leaf must be about the shape of the
+				// variables themselves: an extra, unrelated condition would let JSON-object variables through unvalidated
 				all := true
-				for _, c := range flattenAnd(b) {
-					if !mentionsField(info, c, "graphql", "Request", "Variables") {
+				var leaves func(x ast.Expr)
+				leaves = func(x ast.Expr) {
+					x = ast.Unparen(x)
+					if u, isNot := x.(*ast.UnaryExpr); isNot && u.Op.String() == "!" {
+						leaves(u.X)
+						return
+					}
+					if bb, isBin := x.(*ast.BinaryExpr); isBin && (bb.Op.String() == "&&" || bb.Op.String() == "||") {
+						leaves(bb.X)
+						leaves(bb.Y)
+						return
+					}
+					if !mentionsField(info, x, "graphql", "Request", "Variables") {
 						all = false
 					}
 				}
+				leaves(b)
 				if all {
 					st.Set("vars-ok")
 				}
